@@ -102,7 +102,7 @@ TABLE = {
         text="PINN / shared-output PINNs / SPINN / HYPERPINN objects created by the real factory functions on random "
              "architectures are evaluated and compared with forward passes written in numpy (layer walk, transforms "
              "in the stated order, explicit sum_r prod_d contraction per output slot, manual split of the "
-             "hyper-network output in parameter-leaf order); trailing axis, scalar vs (1,) time and bare parameters "
+             "hyper-network output in parameter-leaf order; scalar, vector and matrix-valued hyper-parameters); trailing axis, scalar vs (1,) time and bare parameters "
              "are asserted on every call.",
         note="'output slice' read as the wrapper's output_slice; shared-output networks have >= 2 outputs",
         ref="DESIGN.md §4 C10"),
@@ -121,7 +121,7 @@ TABLE = {
         text="Losses (ODE, stationary, non-stationary, 2-unknown systems) are evaluated on batches built with the real "
              "append_param_batch for every non-empty subset of three equation parameters (one read by the network "
              "input transform, one by the equation, one only passed through) and compared term by term with the mean "
-             "over rows of the unbatched real loss and with numpy formulas; gradients w.r.t. unbatched keys and the "
+             "over rows of the unbatched real loss and with numpy formulas (Dirichlet and Neumann boundary terms); gradients w.r.t. unbatched keys and the "
              "network likewise; heterogeneity maps (none/one/all/missing/None entries) are checked on the equation "
              "value and on the other terms staying unchanged; the caller's parameters are compared before/after.",
         note="(B,1) parameter batches; boundary/observation/normalisation inputs have B rows; non-stationary normalisation pairs time i with row i",
@@ -177,7 +177,8 @@ TABLE = {
         level="fault_enumeration",
         text="A NaN is injected at every iteration k of a 6-iteration run and at every origin (loss value via a user "
              "equation keyed on a tick parameter, gradient of a network leaf, gradient of an equation parameter, "
-             "optimizer update), for sgd/adam and ODE/stationary losses, plus fault-free controls and double faults; the "
+             "optimizer update), for sgd/adam and ODE/stationary losses, plus fault-free controls, double faults and "
+             "sequences in which only the loss VALUE is NaN (finite gradient, training must go on) before a real fault; the "
              "returned parameters must be those held just before iteration k (NaN-free), histories up to k those of the "
              "reference loop, later entries untouched.",
         note="quick tier enumerates k x origin for one loss/optimizer pair (rotating with VERIF_SEED), thorough for all four",
